@@ -121,6 +121,7 @@ structure J where
   keys : List (String × KT) := []
   recorded : List (String × PReq) := []      -- tx symbol ↦ request of an accepted submission, not yet listed
   executed : List (String × String) := []    -- (sender address, nonce text) of bodies that ran on batch/task routes
+  disabled : List String := []
 
 def jinit : J := {}
 
@@ -176,13 +177,22 @@ def firstSome : List (Option String) → Option String
 def jstep (j : J) (ws : List String) : J × String :=
   let (op, obs) := splitObs ws
   match op with
-  | ["reset", _] => (jinit, "pass")
+  | ["reset", dis] => ({ jinit with disabled := if dis = "-" then [] else dis.splitOn "," }, "pass")
   | ["submit", tx, w] =>
     match parseReq w with
     | none => (j, "bad-op")
     | some p =>
       let j := jlearn j p
       if obs ≠ "ok" then (j, "pass") else
+      -- a submission that fails validation (unknown or disabled function, authentication, argument
+      -- check) must be refused and record nothing
+      let jc : Ctx := { env := jenv j, robot := "robot", ttl := 50000, methods := methodsTbl,
+                        disabled := fun f => j.disabled.contains (methodName f), argsOk := argsOk,
+                        body := tokenBody "{AI}" }
+      match System.gate jc p.req, entitledAs j p with
+      | .error "args", some _ | .error "unknown", some _ =>
+        (j, "violation invalid_submission_recorded a submission that fails validation was accepted")
+      | _, _ =>
       match entitledAs j p with
       | none => (j, "violation forged_sender_e2e a submission was accepted for a request that is not entitled to act for its sender")
       | some _ =>
